@@ -96,7 +96,8 @@ def oracle(ops, meta, il, ml=None):
         if why is None and not failed and cur is not None:
             prev = held.get(obj)
             # part of what the object held before survives inside a different "result": the call did not write a whole hash
-            if prev is not None and cur != prev and not prev.startswith(b"*") and common_suffix(cur, prev) >= 11 and st is not None and not prev.startswith(st[:len(prev) - 11]):
+            if prev is not None and cur != prev and not prev.startswith(b"*") and common_suffix(cur, prev) >= 11 and st is not None and not prev.startswith(st[:len(prev) - 11]) \
+                    and not cur.startswith(st):      # (a result that begins with the complete setting is this call's own hash: e.g. $2b$ and $2y$ share digests)
                 why = "the returned string ends with %d characters of the string the object held before the call (stale hash material)" % common_suffix(cur, prev)
             elif st is not None and CS.method_of(st) is not None and c06_shape(st, cur) is not None:
                 # crypt(5) documents the shape of every method's hash: a "hash" that does not have it was produced from a malformed
